@@ -8,13 +8,22 @@ Definition fpt := (float * float)%type.
 Definition dkey := (nat * nat)%type.
 Definition dtab := list (dkey * float).
 
+Inductive callkind := KCm | KMae | KMse | KRmse | KRmspe.
+
 Inductive case :=
   (* cm(points, knees, expected, t) = cm_out (tp, fp, fn, tn); accuracy / f1score / mcc of that matrix;
      mae / mse / rmse / rmspe with strategy s; dtab: np.linalg.norm(b - a[i], axis=1)[j] for the sides the strategy picks.
      None = the call raised *)
   | CScore (pts : list fpt) (knees : list nat) (expected : list fpt) (t : float) (s : strategy) (tab : dtab)
            (cm_out : option (Z * Z * Z * Z)) (acc f1 mc : option float)
-           (mae_o mse_o rmse_o rmspe_o : option float).
+           (mae_o mse_o rmse_o rmspe_o : option float)
+  (* ONE call of one function of the module (a step of a multi-call sequence on shared argument objects):
+     k says which; cm_out is the matrix when k = KCm, val the float result otherwise.  pts / knees / expected are the
+     contents the argument buffers held at the time of the call; tab as above, computed from fresh copies *)
+  | CCall (pts : list fpt) (knees : list nat) (expected : list fpt) (t : float) (s : strategy) (tab : dtab)
+          (k : callkind) (cm_out : option (Z * Z * Z * Z)) (val : option float)
+  (* a sequence of calls made on the SAME ndarray objects (refilled in place between calls): every call is judged *)
+  | CSeq (steps : list case).
 
 Fixpoint dlookup (k : dkey) (tb : dtab) : option float :=
   match tb with
@@ -49,7 +58,7 @@ Definition in01 (v : option float) : bool := match v with Some x => (0 <=? x)%fl
 Definition in11 (v : option float) : bool := match v with Some x => (-1 <=? x)%float && (x <=? 1)%float | None => false end.
 Definition is_val (v : option float) (x : float) : bool := match v with Some y => (y =? x)%float | None => false end.
 
-Definition judge (c : case) : Z :=
+Definition judge_score (c : case) : Z :=
   match c with
   | CScore pts knees expected t s tab cm_out acc f1 mc mae_o mse_o rmse_o rmspe_o =>
       let n := length pts in
@@ -110,16 +119,108 @@ Definition judge (c : case) : Z :=
         then (tp =? nK)%Z && (fp =? 0)%Z && (fn =? 0)%Z && (tn =? Z.of_nat n - nK)%Z else true
       ] in
       ((if ag then 0 else 100) + h)%Z
+  | _ => 600%Z
+  end.
+
+Definition cm_same (mo : cmres) (q : option (Z * Z * Z * Z)) : bool :=
+  match q with
+  | Some (tp', fp', fn', tn') =>
+      (tp' =? Z.of_nat (c_tp mo))%Z && (fp' =? Z.of_nat (c_fp mo))%Z && (fn' =? Z.of_nat (c_fn mo))%Z && (tn' =? c_tn mo)%Z
+  | None => false
+  end.
+
+(* one call: the same predicates as judge_score, restricted to the function that was called *)
+Definition judge_call (c : case) : Z :=
+  match c with
+  | CCall pts knees expected t s tab k cm_out val =>
+      let n := length pts in
+      let dom := (2 <=? n) && forallb (fun p => finite (fst p) && finite (snd p)) pts && increasing (map fst pts)
+                 && (1 <=? length knees) && forallb (fun k => k <? n) knees
+                 && (1 <=? length expected) && forallb (fun p => finite (fst p) && finite (snd p)) expected
+                 && negb (f_isnan t) in
+      if negb dom then 600%Z else
+      let kp := @knee_points FloatNum pts knees in
+      let '(a, b) := sides s kp expected in
+      let keys := match k with
+                  | KCm => []
+                  | _ => flat_map (fun i => map (fun j => (i, j)) (seq 0 (length b))) (seq 0 (length a))
+                  end in
+      if negb (forallb (fun k => is_some (dlookup k tab)) keys) then 400%Z else
+      let dist := doracle tab in
+      let tab_ok := forallb (fun k => f_close 0x1p-30 0 (@dist_closed FloatNum a b (fst k) (snd k)) (dist (fst k) (snd k))) keys in
+      let exact := forallb (fun p => existsb (pt_eqb p) b) a in
+      let zero_if_exact := if exact then is_val val 0 else true in
+      match k with
+      | KCm =>
+          let mo := @cm FloatNum pts knees expected t in
+          let '(tp, fp, fn, tn) := match cm_out with Some q => q | None => (0, 0, 0, 0)%Z end in
+          let nE := Z.of_nat (length expected) in
+          let nK := Z.of_nat (length knees) in
+          let greedy := @greedy_spec FloatNum (map fst kp) (@cm_dx FloatNum (map fst pts)) t (map fst expected) 0 [] in
+          let h := first_false [
+            is_some cm_out;
+            (tp + fn =? nE)%Z && (tp + fp =? nK)%Z && (tp + fp + fn + tn =? Z.of_nat n)%Z;
+            (tp =? Z.of_nat (length greedy))%Z;
+            if distinct_nats knees && (length expected =? length knees) && distinct_floats (map fst expected)
+               && forallb (fun e => existsb (pt_eqb e) kp) expected && (0 <=? t)%float
+            then (tp =? nK)%Z && (fp =? 0)%Z && (fn =? 0)%Z && (tn =? Z.of_nat n - nK)%Z else true
+          ] in
+          ((if cm_same mo cm_out then 0 else 100) + h)%Z
+      | KMae =>
+          let h := first_false [is_some val; nonneg_o val; zero_if_exact;
+                                opt_same val (Some (@mean_err_spec FloatNum dist (@l1_term FloatNum) a b))] in
+          ((if opt_same val (Some (@mae FloatNum dist s kp expected)) && tab_ok then 0 else 100) + h)%Z
+      | KMse =>
+          let h := first_false [is_some val; nonneg_o val; zero_if_exact;
+                                opt_same val (Some (@mean_err_spec FloatNum dist (@l2_term FloatNum) a b))] in
+          ((if opt_same val (Some (@mse FloatNum dist s kp expected)) && tab_ok then 0 else 100) + h)%Z
+      | KRmse =>
+          (* rmse = sqrt(mse) of THESE arguments: the square root of the declarative mean squared error *)
+          let h := first_false [is_some val; nonneg_o val; zero_if_exact;
+                                opt_same val (Some (PrimFloat.sqrt (@mean_err_spec FloatNum dist (@l2_term FloatNum) a b)))] in
+          ((if opt_same val (Some (@rmse FloatNum dist s kp expected)) && tab_ok then 0 else 100) + h)%Z
+      | KRmspe =>
+          let h := first_false [is_some val; nonneg_o val; zero_if_exact;
+                                opt_same val (Some (@rmspe_spec FloatNum dist a b))] in
+          ((if opt_same val (Some (@rmspe FloatNum dist s kp expected)) && tab_ok then 0 else 100) + h)%Z
+      end
+  | _ => 600%Z
+  end.
+
+(* a sequence: a step whose predicate is false decides; else a disagreeing step; else in-domain agreement; 600 if no
+   step is in the domain *)
+Definition combine (codes : list Z) : Z :=
+  match find (fun c => negb (c / 100 =? 6)%Z && negb (c mod 100 =? 0)%Z) codes with
+  | Some c => c
+  | None =>
+      match find (fun c => negb (c / 100 =? 6)%Z && negb (c =? 0)%Z) codes with
+      | Some c => c
+      | None => if existsb (fun c => (c =? 0)%Z) codes then 0%Z else 600%Z
+      end
+  end.
+
+Fixpoint judge (c : case) : Z :=
+  match c with
+  | CScore _ _ _ _ _ _ _ _ _ _ _ _ _ _ => judge_score c
+  | CCall _ _ _ _ _ _ _ _ _ => judge_call c
+  | CSeq steps => combine (map judge steps)
   end.
 
 (* the model's own outputs, for replay files *)
-Definition show (c : case) : (nat * nat * nat * Z * list (nat * nat)) * list float :=
+Definition show1 (c : case) : (nat * nat * nat * Z * list (nat * nat)) * list float :=
   match c with
-  | CScore pts knees expected t s tab _ _ _ _ _ _ _ _ =>
+  | CScore pts knees expected t s tab _ _ _ _ _ _ _ _
+  | CCall pts knees expected t s tab _ _ _ =>
       let mo := @cm FloatNum pts knees expected t in
       let kp := @knee_points FloatNum pts knees in
       let dist := doracle tab in
       ((c_tp mo, c_fp mo, c_fn mo, c_tn mo, c_match mo),
        [@mae FloatNum dist s kp expected; @mse FloatNum dist s kp expected; @rmse FloatNum dist s kp expected;
         @rmspe FloatNum dist s kp expected])
+  | CSeq _ => ((0, 0, 0, 0%Z, []), [])
+  end.
+Definition show (c : case) : list ((nat * nat * nat * Z * list (nat * nat)) * list float) :=
+  match c with
+  | CSeq steps => map show1 steps
+  | _ => [show1 c]
   end.
